@@ -47,7 +47,7 @@ def floors(tier):
     f = {"nontrivial": 250, "held:main": 300, "held:catalogue": 12, "counter:symbolic_comparisons": 1000,
          "counter:numeric_points": 900, "counter:identity_checks": 900}
     for c in ("single-state", "single-event", "multi-transition", "has-B/D", "symbolic-magnitude", "time-dependent",
-              "ode-terms", "derived-param", "derived-chain", "range-style", "string-declaration", "no-events"):
+              "ode-terms", "derived-param", "derived-chain", "range-style", "string-declaration", "no-events", "mixed-routes"):
         f["class:" + c] = 5
     f["reach:DeterministicOde.get_ode_eqn"] = 300
     f["reach:BaseOdeModel.get_StateChangeMatrix"] = 300
@@ -220,9 +220,15 @@ def run_case(rng, idx, tier, lane, ctx):
         cython = lane == "cython"
         spec = G.gen_assembly(rng, csafe=cython, time_dep=not cython)
         native = None
+        mixed = (not cython) and rng.random() < 0.4
         try:
             with contextlib.redirect_stdout(io.StringIO()):
-                m = G.build(spec, backend=None if cython else "lambda")
+                if mixed:
+                    # same definition entered through a random mixture of API routes (events keep their identity, their order changes)
+                    m, order = G.build_mixed(spec, rng, backend="lambda")
+                    spec = G.permuted_spec(spec, order)
+                else:
+                    m = G.build(spec, backend=None if cython else "lambda")
         except Exception as e:
             return {"status": "violated", "sample": spec, "counters": counters,
                     "witnesses": [{"what": "model construction raised on a definition inside the quantifier",
@@ -240,7 +246,7 @@ def run_case(rng, idx, tier, lane, ctx):
             counters["native_fail"] = native.fail
             if native.ok == 0 and not wit:
                 return {"status": "inconclusive", "reason": "no-native-compile", "counters": counters, "sample": spec}
-        cls = G.classes(spec)
+        cls = G.classes(spec) + (["mixed-routes"] if mixed else [])
     res = {"status": "violated" if wit else "held", "nontrivial": nontrivial(spec, ref), "key": canon_hash(spec),
            "classes": cls, "counters": counters, "sample": spec}
     if wit:
